@@ -413,7 +413,7 @@ theorem optSub_luaSet : OptSub Bodies.luaSetOpts Bodies.setOpts := by
        exact ⟨rfl, by simp, _, rfl, rfl, rfl⟩)
 
 theorem luaSet_ok (args : List Bytes) (c : Cmd) (h : Bodies.luaSet args = .ok c) :
-    Bodies.set args = .ok c ∨ Bodies.set args = .error (.lit .nxxx) := by
+    Bodies.set args = .ok c := by
   match args with
   | [] => simp [Bodies.luaSet] at h
   | [_] => simp [Bodies.luaSet] at h
@@ -429,12 +429,45 @@ theorem luaSet_ok (args : List Bytes) (c : Cmd) (h : Bodies.luaSet args = .ok c)
       rw [hlen] at hb
       simp only [Bodies.set, h1, bind, Except.bind]
       by_cases hc : (s.has 0 && s.has 1) = true
-      · right; simp [hc]
-      · left
-        simp only [Bool.not_eq_true] at hc
+      · simp [hc] at h
+      · simp only [Bool.not_eq_true] at hc
+        simp only [hc, Bool.false_eq_true, if_false] at h
         simp only [hc, Bool.false_eq_true, if_false, has_false_of_bound hb (i := 7) (by omega), Bool.false_and,
           opt1_none_of_bound hb (i := 5) (by omega), opt1_none_of_bound hb (i := 6) (by omega)]
         exact h
+
+theorem optSub_zrbs (off cnt off' cnt' : Arg) (m m' : Lit) (ho : off.kind = off'.kind) (hc : cnt.kind = cnt'.kind) :
+    OptSub (Bodies.zrbsOpts off cnt m) (Bodies.zrbsOpts off' cnt' m') := by
+  intro k i o h
+  simp only [Bodies.zrbsOpts, findOpt] at h
+  repeat' split at h
+  all_goals first
+    | (simp at h; done)
+    | (simp only [Option.some.injEq, Prod.mk.injEq] at h
+       obtain ⟨hi, ho'⟩ := h
+       subst hi; subst ho'
+       rename_i hk
+       subst hk
+       refine ⟨rfl, by simp, _, rfl, rfl, ?_⟩
+       simp [sameKinds, ho, hc])
+
+theorem zrangebyscore_ok (off cnt off' cnt' : Arg) (m m' : Lit) (u u' : Fmt)
+    (ho : off.kind = off'.kind) (hc : cnt.kind = cnt'.kind) (args : List Bytes) (c : Cmd)
+    (h : Bodies.zrangebyscore off cnt m u args = .ok c) : Bodies.zrangebyscore off' cnt' m' u' args = .ok c := by
+  match args with
+  | [] => simp [Bodies.zrangebyscore] at h
+  | [_] => simp [Bodies.zrangebyscore] at h
+  | [_, _] => simp [Bodies.zrangebyscore] at h
+  | k :: mn :: mx :: opts =>
+    simp only [Bodies.zrangebyscore, bind, Except.bind] at h ⊢
+    cases hs : scanOpts (Bodies.zrbsOpts off cnt m) (fun w => some (.fmt u w)) opts with
+    | error e => rw [hs] at h; simp at h
+    | ok s =>
+      rw [hs] at h
+      obtain ⟨h1, _⟩ := scan_sub _ (Bodies.zrbsOpts off' cnt' m') _ (fun w => some (.fmt u' w))
+        (optSub_zrbs off cnt off' cnt' m m' ho hc) (fun _ => rfl) opts.length opts s (Nat.le_refl _) hs
+      rw [h1]
+      exact h
 
 theorem zadd_ok {a b : Arg} (hk : a.kind = b.kind) (args : List Bytes) (c : Cmd)
     (h : Bodies.zadd a args = .ok c) : Bodies.zadd b args = .ok c := by
